@@ -139,7 +139,16 @@ func (g *c02gen) one(s *jen.Statement, depth int) {
 		case pt == tTagMap:
 			mm := map[string]string{}
 			for j, n := 0, g.r.Intn(3); j < n; j++ {
-				mm[c02Strings[g.r.Intn(12)]] = c02Strings[g.r.Intn(12)] + "\"`\n"[:g.r.Intn(4)]
+				key := c02Strings[g.r.Intn(12)]
+				if g.r.Intn(3) == 0 {
+					// keys that are equal up to case, or prefixes of each other: a family at a time
+					fam := [][]string{{"json", "JSON", "Json"}, {"a", "A"}, {"db", "db2", "db-x"}}[g.r.Intn(3)]
+					for _, k := range fam {
+						mm[k] = c02Strings[g.r.Intn(12)]
+					}
+					continue
+				}
+				mm[key] = c02Strings[g.r.Intn(12)] + "\"`\n"[:g.r.Intn(4)]
 			}
 			args = append(args, reflect.ValueOf(mm))
 		case pt == tOptions:
